@@ -13,7 +13,7 @@ import urllib.parse
 from harness import vloop, wire
 from harness import peer as P
 from harness.core import Result
-from harness.svc import RawCodec, Service
+from harness.svc import Service
 
 PROPERTY = 'C14'
 THEOREM_FILES = ['Props/C14.v']
@@ -346,6 +346,48 @@ def _scalars(m):
     return [c for c in m if not 0xd800 <= c <= 0xdfff]
 
 
+# ---- message codecs: the content subtype is part of the configuration, on both end points ---------------------------
+
+SUBTYPES = ['proto', 'proto', 'json', 'x-raw.v1']
+_CODECS = {}
+
+
+def msg_codec(sub):
+    """a message codec (opaque bytes) announcing the content subtype `sub` (None -> 'proto')"""
+    sub = sub or 'proto'
+    if sub not in _CODECS:
+        from grpclib.encoding.base import CodecBase
+
+        class BytesCodec(CodecBase):
+            __content_subtype__ = sub
+
+            def encode(self, message, message_type):
+                if not isinstance(message, (bytes, bytearray)):
+                    raise TypeError('bytes expected')
+                return bytes(message)
+
+            def decode(self, data, message_type):
+                return bytes(data)
+        _CODECS[sub] = BytesCodec()
+    return _CODECS[sub]
+
+
+def content_type_for(sub, plain_ok=True):
+    """what a peer configured with the same codec sends: application/grpc+<sub>; the bare form means +proto"""
+    sub = sub or 'proto'
+    if sub == 'proto' and plain_ok:
+        return 'application/grpc'
+    return 'application/grpc+' + sub
+
+
+def content_type_ok(value, sub):
+    """the gRPC rule a receiver with subtype `sub` applies"""
+    if value is None:
+        return False
+    base, _, s = value.partition('+')
+    return base == 'application/grpc' and (s or 'proto') == (sub or 'proto')
+
+
 # ---- how a handler raises its status: plain GRPCError or a user-defined error hierarchy on top of it ---------------
 
 EXC_KINDS = ['plain', 'plain', 'sub1', 'sub2']
@@ -460,11 +502,12 @@ def impl_trailers(case):
             if how == 'send-after-message':
                 await stream.send_message(b'r')
             await stream.send_trailing_metadata(status=st, status_message=msg, status_details=det)
-        se = wire.ServerEnd(loop, [Service('v.S', {'M': (handler, 'UU')})],
+        se = wire.ServerEnd(loop, [Service('v.S', {'M': (handler, 'UU')})], codec=msg_codec(case.get('sub')),
                             status_details_codec=raw_details_codec() if case.get('codec', True) else None)
         loop.run_quiet(1)
         se.peer.take_events()
-        sid = se.peer.request(P.REQ_HEADERS)
+        sid = se.peer.request([(k, v) for k, v in P.REQ_HEADERS if k != 'content-type'] +
+                              [('content-type', content_type_for(case.get('sub'), case['st'] % 2 == 0))])
         se.peer.data(sid, P.grpc_frame(b'q'), end_stream=True)
         loop.run_quiet(5)
         blocks, ended = [], False
@@ -475,7 +518,9 @@ def impl_trailers(case):
                 ended = True
         viol = [type(v).__name__ for v in se.peer.violations]
     status_part = [(k, v) for b in blocks for k, v in b if k in STATUS_KEYS]
-    return {'headers': status_part, 'blocks': len(blocks), 'ended': ended, 'violations': viol}
+    return {'headers': status_part, 'blocks': len(blocks), 'ended': ended, 'violations': viol,
+            'http_status': dict(blocks[0]).get(':status') if blocks else None,
+            'content_type': dict(blocks[0]).get('content-type') if blocks else None}
 
 
 def parse_model_trailers(line):
@@ -500,7 +545,8 @@ def impl_receive(case):
             sdc = ProtoStatusDetailsCodec()
         else:
             sdc = raw_details_codec() if case.get('codec', True) else None
-        ce = wire.ClientEnd(loop, status_details_codec=sdc)
+        ce = wire.ClientEnd(loop, codec=msg_codec(case.get('sub')), status_details_codec=sdc)
+        ctype = content_type_for(case.get('sub'), len(raw) % 2 == 0).encode()
         m = UnaryUnaryMethod(ce.channel, '/v.S/M', bytes, bytes)
         got = {}
 
@@ -515,10 +561,10 @@ def impl_receive(case):
         sid = [e for e in ce.peer.take_events() if isinstance(e, RequestReceived)][0].stream_id
         try:
             if case.get('layout') == 'only':
-                ce.peer.headers(sid, [(b':status', b'200'), (b'content-type', b'application/grpc')] + raw,
+                ce.peer.headers(sid, [(b':status', b'200'), (b'content-type', ctype)] + raw,
                                 end_stream=True)
             else:
-                ce.peer.headers(sid, [(b':status', b'200'), (b'content-type', b'application/grpc')])
+                ce.peer.headers(sid, [(b':status', b'200'), (b'content-type', ctype)])
                 ce.peer.data(sid, P.grpc_frame(b'r'))
                 ce.peer.headers(sid, raw, end_stream=True)
         except BaseException as e:          # escaped from H2Protocol.data_received
@@ -585,15 +631,15 @@ def canon_detail(d):
     return ('unknown', m.group(1) if m else repr(d))
 
 
-def open_pair(loop, services, sdc, cutter):
+def open_pair(loop, services, sdc, cutter, codec):
     """real Channel <-> real Server protocol over a byte link with re-cut delivery, wired the way
     grpclib.testing.ChannelFor wires its pair.  Returns (channel, link), or (None, None) when that private wiring is
     not there any more -- the caller then falls back to the public ChannelFor (no re-cutting)."""
     from grpclib.client import Channel
     from grpclib.server import Server
     try:
-        server = Server(services, codec=RawCodec(), status_details_codec=sdc)
-        channel = Channel(codec=RawCodec(), status_details_codec=sdc)
+        server = Server(services, codec=codec, status_details_codec=sdc)
+        channel = Channel(codec=codec, status_details_codec=sdc)
         sproto = server._protocol_factory()
         cproto = channel._protocol_factory()
         link = wire.Link(loop, cproto, sproto, cutter)
@@ -607,11 +653,12 @@ def open_pair(loop, services, sdc, cutter):
         return None, None
 
 
-def run_pair(services, sdc, cut, card, body):
+def run_pair(services, sdc, cut, card, body, sub=None):
     """run `body(stream, got)` inside `async with method.open()` against the services; -> (outcome, got, extra)"""
     import asyncio
     with vloop.session() as loop:
-        channel, link = open_pair(loop, services, sdc, make_cutter(cut))
+        codec = msg_codec(sub)
+        channel, link = open_pair(loop, services, sdc, make_cutter(cut), codec)
         got = {'replies': []}
         res = {}
 
@@ -629,7 +676,7 @@ def run_pair(services, sdc, cut, card, body):
 
         async def outer():
             from grpclib.testing import ChannelFor
-            async with ChannelFor(services, codec=RawCodec(), status_details_codec=sdc) as ch:
+            async with ChannelFor(services, codec=codec, status_details_codec=sdc) as ch:
                 await inner(ch)
         loop.create_task(inner(channel) if channel is not None else outer())
         quiet = loop.run_quiet(20)
@@ -677,7 +724,7 @@ def e2e(case):
             got['replies'].append(await s.recv_message())
         await s.recv_trailing_metadata()
     o, got, extra = run_pair([Service('v.S', {'M': (handler, card)})], recording_proto_codec(log), case.get('cut'),
-                             card, body)
+                             card, body, case.get('sub'))
     return lc_observe(o, got, log, extra), details
 
 
@@ -790,7 +837,7 @@ def e2e_lifecycle(case):
     async def body(s, got):
         await lc_client_body(s, case, got)
     o, got, extra = run_pair([Service('v.S', {'M': (handler, case['card'])})], recording_proto_codec(log),
-                             case.get('cut'), case['card'], body)
+                             case.get('cut'), case['card'], body, case.get('sub'))
     return lc_observe(o, got, log, extra), details
 
 
@@ -808,7 +855,8 @@ def e2e_peer(case):
     log = []
     with vloop.session() as loop:
         codec = recording_proto_codec(log)
-        ce = wire.ClientEnd(loop, status_details_codec=codec)
+        ce = wire.ClientEnd(loop, codec=msg_codec(case.get('sub')), status_details_codec=codec)
+        resp = [(':status', '200'), ('content-type', content_type_for(case.get('sub'), case['st'] % 2 == 0))]
         m = lc_method(ce.channel, case['card'])
         got = {'replies': []}
 
@@ -824,9 +872,9 @@ def e2e_peer(case):
         if details is not None:
             trailers.append(('grpc-status-details-bin', encode_bin_value(codec.encode(st, msg, details)).decode('ascii')))
         if case.get('layout') == 'only':
-            ce.peer.headers(sid, P.RESP_HEADERS + trailers, end_stream=True)
+            ce.peer.headers(sid, resp + trailers, end_stream=True)
         else:
-            ce.peer.headers(sid, P.RESP_HEADERS)
+            ce.peer.headers(sid, resp)
             ce.peer.data(sid, P.grpc_frame(b'r'))
             ce.peer.headers(sid, trailers, end_stream=True)
         term = case.get('term')
@@ -937,6 +985,7 @@ def check_e2e(ctx, res, cases):
         obs, details = obs_all[i]
         res.evaluations += 1
         kinds = tuple(sorted(set(s[0] for s in (case.get('details') or []))))
+        res.count('%s:codec-subtype:%s' % (case.get('op', 'e2e'), case.get('sub') or 'proto'))
         dclass = 'details' if case.get('details') else ('nodetails' if case.get('details') is None else 'emptydetails')
         if case.get('op') != 'e2e-peer' and case.get('how', 'raise').startswith('raise'):
             res.count('e2e:handler-raises:%s' % (case.get('exc') or 'plain'))
@@ -944,11 +993,12 @@ def check_e2e(ctx, res, cases):
             res.count('%s:%s:%s:%s:%s' % (case['op'], case['card'], 'half-closed' if case['half_closed'] else 'sending',
                                           case['mode'], dclass))
             res.count('%s:surfaced-as:%s' % (case['op'], obs.get('exc') or obs['outcome']))
-            res.signatures.add((case['op'], case['card'], case['half_closed'], case['mode'], case.get('sleep'),
+            res.signatures.add((case['op'], case.get('sub'), case['card'], case['half_closed'], case['mode'], case.get('sleep'),
                                 case.get('srv'), case.get('layout'), case.get('term'), kinds))
         else:
             res.count('e2e:%s:%s' % (case.get('how', 'raise'), dclass))
-            res.signatures.add(('e2e', case['st'], case.get('how'), case.get('exc'), msg_class(case['msg']), kinds))
+            res.signatures.add(('e2e', case['st'], case.get('how'), case.get('exc'), case.get('sub'), msg_class(case['msg']),
+                                kinds))
         res.sample({'op': 'e2e', 'status': case['st'], 'message': case['msg'], 'details': case.get('details'),
                     'client': {k: v for k, v in obs.items() if k not in ('codec_log',)}}, limit=8)
         lifecycle_silent = case.get('op') in ('e2e-lc', 'e2e-peer') and obs.get('exc') != 'GRPCError'
@@ -1092,7 +1142,9 @@ def check_trailers(ctx, res, cases):
         obs = impl_trailers(c)
         res.evaluations += 1
         res.count('server-trailers:' + c.get('how', 'raise'))
-        res.signatures.add(('tr', c['st'], c.get('how'), c.get('exc'), msg_class(c['msg']), c['det'] is None, c.get('codec', True)))
+        res.count('server-trailers:codec-subtype:' + (c.get('sub') or 'proto'))
+        res.signatures.add(('tr', c['st'], c.get('how'), c.get('exc'), c.get('sub'), msg_class(c['msg']), c['det'] is None,
+                            c.get('codec', True)))
         res.sample({'op': 'server trailers', 'case': c, 'wire': obs}, limit=4)
         unary_ok_without_message = c['st'] == 0 and c.get('how', 'raise') != 'send-after-message'
         if model is not None and not unary_ok_without_message:
@@ -1118,6 +1170,10 @@ def check_trailers(ctx, res, cases):
                 bad = ('grpc-message on the wire is not printable ASCII / well escaped: %r' % d[K_MESSAGE], 'wire-unsafe')
             elif c['msg'] is not None and impl_dec(cpl(d[K_MESSAGE])) != ('ok', c['msg']):
                 bad = ('grpc-message on the wire does not decode to the reported message', 'wire-roundtrip')
+            elif obs['http_status'] != '200' or not content_type_ok(obs['content_type'], c.get('sub')):
+                bad = ('the response carrying the status is labelled :status %r content-type %r; a client with the same '
+                       'codec (subtype %r) refuses it and never looks at the status' % (
+                           obs['http_status'], obs['content_type'], c.get('sub') or 'proto'), 'wire-content-type')
             elif obs['violations']:
                 bad = ('server violated HTTP/2: %r' % obs['violations'], 'h2-violation')
             if bad:
@@ -1133,7 +1189,8 @@ def check_receive(ctx, res, cases):
         impl = impl_receive(c)
         res.evaluations += 1
         res.count(('client-status-processing:' if c.get('from') == 'st' else 'client-receive:') + impl[0])
-        res.signatures.add(('rcv', c.get('layout'), tuple((bytes(unj(k)), bytes(unj(v))[:8]) for k, v in c['hs'])))
+        res.count('client-receive:codec-subtype:' + (c.get('sub') or 'proto'))
+        res.signatures.add(('rcv', c.get('sub'), c.get('layout'), tuple((bytes(unj(k)), bytes(unj(v))[:8]) for k, v in c['hs'])))
         res.sample({'op': 'client receives trailers', 'case': c, 'impl': impl}, limit=6)
         if model is not None:
             res.traces += 1
@@ -1242,6 +1299,15 @@ OVERSIZE = [{'op': 'e2e', 'st': 5, 'msg_repeat': [0x4e2d, 7300], 'details': None
             {'op': 'e2e', 'st': 13, 'msg_repeat': [0x61, 66000], 'details': None, 'how': 'send', 'oversize': True}]
 
 
+def with_subtypes(rng, cases):
+    """every case runs with a message codec of some content subtype on BOTH end points (a scripted peer labels its
+    side accordingly); the first cases cycle through all subtypes so that none depends on the PRNG"""
+    subs = sorted(set(SUBTYPES))
+    for i, c in enumerate(cases):
+        if 'sub' not in c:
+            c['sub'] = subs[i % len(subs)] if i < 3 * len(subs) else rng.choice(SUBTYPES)
+
+
 def run(ctx):
     res = Result()
     rng = ctx.rng
@@ -1261,7 +1327,8 @@ def run(ctx):
                 'receiving} x {ops racing with / after arrival} x details {None, known, unknown}, once with the real server '
                 '(error before / after a reply; RST after the trailers when the client has not half-closed) and once with a '
                 'scripted server (trailers-only / full response, then nothing / RST_STREAM / GOAWAY / connection loss); '
-                'quick = PRNG half of the cells, thorough = all. '
+                'quick = PRNG half of the cells, thorough = all; every case of (c)-(f) runs with a message codec of content '
+                'subtype proto / json / x-raw.v1 configured on BOTH end points (scripted peers label their side to match). '
                 'distinct = distinct (op, status, how, message class, detail kinds / header shape) signature')
     encs, decs, u8ds, trs, rcvs, e2es = [], [], [], [], [], []
     for c in ctx.corpus() + [h for h in getattr(ctx, 'hints', []) if isinstance(h, dict)]:
@@ -1315,6 +1382,7 @@ def run(ctx):
                     'det': None if rng.random() < 0.4 else gen_details_bytes(rng),
                     'how': rng.choice(['raise', 'send', 'send-after-message']), 'codec': rng.random() < 0.85,
                     'exc': rng.choice(EXC_KINDS)})
+    with_subtypes(rng, trs)
     check_trailers(ctx, res, trs)
     # (d)
     for v in RCV_FIXED:
@@ -1323,6 +1391,7 @@ def run(ctx):
     rcvs.append({'hs': [(b'grpc-status', b'0'), (b'grpc-message', b'ignored')], 'layout': 'trailers'})
     for _ in range(ctx.n(2000, 30000)):
         rcvs.append(gen_receive_case(rng))
+    with_subtypes(rng, rcvs)
     check_receive(ctx, res, rcvs)
     # (e)
     for s in status_members():
@@ -1334,6 +1403,7 @@ def run(ctx):
     e2es += [expand(c) for c in OVERSIZE]
     # witness of C14_status_roundtrip_all_refuted (OK, 'x', None): the model says the client keeps nothing
     e2es.append({'op': 'e2e', 'st': 0, 'msg': [120], 'details': None, 'how': 'send-after-message'})
+    with_subtypes(rng, e2es)
     check_e2e(ctx, res, e2es)
     return res
 
